@@ -107,7 +107,7 @@ func (u *Unit) VerifyFunc() {
 		return
 	}
 	fr.Entry = st.Clone()
-	fr.OnReturn = func(st *State, _ *Frame, res []Val) { u.topReturn(st, fr, res) }
+	fr.Top = true
 	fr.OnPanic = func(st *State, _ *Frame, v Term) { u.paths++ }
 	u.enterBlock(st, fr, fn.Blocks[0], nil)
 	// clause coverage: every assert_call clause must have matched a call site
